@@ -76,11 +76,23 @@ func NewModules() *Modules {
 // e.g., foo.yang is named foo).  An error is returned if the file is not
 // found or there was an error parsing the file.
 func (ms *Modules) Read(name string) error {
+	known := len(ms.Path)
 	name, data, err := ms.findFile(name)
 	if err != nil {
 		return err
 	}
-	return ms.Parse(data, name)
+	if err := ms.Parse(data, name); err != nil {
+		// A text that is refused leaves nothing behind, not the directory
+		// it was found in on the search path either (findFile adds it).
+		if len(ms.Path) > known {
+			for _, p := range ms.Path[known:] {
+				delete(ms.pathMap, p)
+			}
+			ms.Path = ms.Path[:known]
+		}
+		return err
+	}
+	return nil
 }
 
 // Parse parses data as YANG source and adds it to ms.  The name should reflect
